@@ -96,10 +96,19 @@ int backup_copy_file(const char *filename, const vector<UINT8> &data)
       size_t retval   = fwrite(data.data(), data.size(), 1, thefile);
       int    my_errno = errno;
 
-      fclose(thefile);
+      // the data may still sit in the stdio buffer: a failing close means
+      // that the backup is not complete
+      if (fclose(thefile) != 0)
+      {
+         my_errno = errno;
+         retval   = 0;
+      }
+      else if (data.empty())
+      {
+         retval = 1;
+      }
 
-      if (  retval == 1
-         || data.empty())
+      if (retval == 1)
       {
          return(EX_OK);
       }
